@@ -137,3 +137,44 @@ Definition link_accepted (offerer : bool) (tracker_peer authenticated : bytes) :
   quic_accepts
     (sess_expected (if offerer then webrtc_listen_peer_arg else webrtc_dial_peer_arg) tracker_peer)
     authenticated.
+
+(* ---- the negotiation loop of sessionTracker.execute (transport/webrtc/session.go) ----
+   One event = one iteration of the loop.  The role is fixed per tracker
+   (tracker_offerer).  pion's answers (SetRemoteDescription, CreateOffer,
+   CreateAnswer, SetLocalDescription, AddICECandidate succeed or not) are oracle
+   bits carried by the events.  A failed tracker emits nothing until the keyed
+   routine restarts it. *)
+Inductive sdp_kind := KOffer | KAnswer | KOther.
+Inductive nev :=
+| RxRequestOffer
+| RxSdp (k : sdp_kind) (pion_ok : bool)
+| RxIce (pion_ok : bool)
+| LocalReady (pion_ok : bool)   (* local seqno changed and no signal is pending *)
+| Restart.
+Inductive nout := TxOffer | TxAnswer | TxRequestOffer | Fail.
+
+Definition nstep (offerer failed : bool) (e : nev) : bool * list nout :=
+  match e with
+  | Restart => (false, [])
+  | RxRequestOffer =>
+      if failed then (true, []) else
+      if offerer then (false, []) else (true, [Fail])   (* "remote peer requested offer but we are not the offerer" *)
+  | RxSdp k ok =>
+      if failed then (true, []) else
+      (* "Enforce offerer always does the offering" *)
+      let role_ok := if offerer then match k with KAnswer => true | _ => false end
+                     else match k with KOffer => true | _ => false end in
+      if negb role_ok then (true, [Fail]) else
+      if negb ok then (true, [Fail]) else
+      if offerer then (false, []) else (false, [TxAnswer])
+  | RxIce ok => if failed then (true, []) else if ok then (false, []) else (true, [Fail])
+  | LocalReady ok =>
+      if failed then (true, []) else
+      if offerer then (if ok then (false, [TxOffer]) else (true, [Fail])) else (false, [TxRequestOffer])
+  end.
+
+Fixpoint nrun (offerer failed : bool) (evs : list nev) : list nout :=
+  match evs with
+  | [] => []
+  | e :: r => let (f', out) := nstep offerer failed e in out ++ nrun offerer f' r
+  end.
